@@ -135,6 +135,10 @@ def forward_mode(thorough):
                 out["findings"].append({"case": tag, "what": "dtype %s, NumPy gives %s" % (gd.dtype, wd.dtype), "signature": sig + ":dtype", "tracking": track})
             elif gd.shape != wd.shape:
                 out["findings"].append({"case": tag, "what": "shape %s, NumPy gives %s" % (gd.shape, wd.shape), "signature": sig + ":shape", "tracking": track})
+            elif not np.array_equal(gd, wd, equal_nan=True):
+                # namesakes call the same NumPy kernel on the same operands: the results are bit-identical, not merely close
+                out["findings"].append({"case": tag, "what": "values %s, NumPy gives %s" % (np.asarray(gd).reshape(-1)[:4].tolist(), wd.reshape(-1)[:4].tolist()),
+                                        "signature": sig + ":value", "tracking": track})
         if len(out["samples"]) < 4:
             out["samples"].append(tag)
 
@@ -188,6 +192,15 @@ def forward_mode(thorough):
                 if f.startswith("cum") and "keepdims" in kw:
                     continue
                 compare("mg.%s(tensor[%s], %s)" % (f, dt, kw), lambda: getattr(mg, f)(mg.tensor(a), **kw), lambda: getattr(np, f)(a, **kw), "seq:%s:%s" % (f, dt))
+    # reductions over larger low-precision operands (accumulation order and accumulator dtype show only here)
+    for f in SEQ_F:
+        for dt in ("float16", "float32"):
+            a = (rng.rand(6, 7) * 30 + 1).astype(dt)
+            for kw in ({}, {"axis": 0}, {"axis": 1, "keepdims": True}) + (({"axis": 1, "ddof": 1},) if f in ("var", "std") else ()):
+                if f.startswith("cum") and "keepdims" in kw:
+                    continue
+                compare("mg.%s(tensor[%s (6,7)], %s)" % (f, dt, kw), lambda: getattr(mg, f)(mg.tensor(a), **kw), lambda: getattr(np, f)(a, **kw), "seq-large:%s:%s" % (f, dt))
+                compare("tensor[%s (6,7)].%s(%s)" % (dt, f, kw), lambda: getattr(mg.tensor(a), f)(**kw), lambda: getattr(a, f)(**kw), "seq-large-method:%s:%s" % (f, dt))
     # manipulation / linalg on each dtype
     for dt in DTYPES:
         a = _mk("arr", dt, rng, (2, 3) if dt != "bool" else (2,))
